@@ -64,25 +64,28 @@ async def drive(c, tier, scripts, rnd):
                 steps, reach = relayrun.concretise(sc, conf, rnd, big=(150000, 300000) if tier == "quick" else (150000, 1200000))
                 spec.append((steps, reach, KINDS[(i + ci) % 3], rnd.choice([1 << 16, 1 << 16, 4096, 1500])))
             used += len(sel)
-            ev = await relayrun.run_batch(dep, spec, vlib.seed() * 1000 + ci)
+            # descriptors: poll until back at the idle baseline; the cap is the one C15 uses (a QUIC connection whose end was
+            # not passed on explicitly is released by its idle timeout, 30 s)
+            cap = 45.0 if conf.transport == "quic" else 12.0
+            ev = await relayrun.run_batch(dep, spec, vlib.seed() * 1000 + ci, settle_cap=cap)
             batches.append(ev)
             # impl -> spec: randomised scripts, run concurrently
             spec = [(relayrun.random_script(rnd, big=(100000, 500000) if tier == "quick" else (100000, 3000000)), "ok",
                      KINDS[i % 3], rnd.choice([1 << 16, 1 << 14, 1000, 65537])) for i in range(8 if tier == "quick" else 32)]
-            ev = await relayrun.run_batch(dep, spec, vlib.seed() * 1000 + 500 + ci, fid0=1000)
+            ev = await relayrun.run_batch(dep, spec, vlib.seed() * 1000 + 500 + ci, fid0=1000, settle_cap=cap)
             batches.append(ev)
             c.add("random_scripts", len(spec))
             # HalfCloseComplete: one side finishes sending and goes on reading; the other answers after it has seen that end
             spec = [(relayrun.halfclose_script(rnd, big=(100000, 400000) if tier == "quick" else (100000, 2000000)), "ok",
                      KINDS[(i + ci) % 3], rnd.choice([1 << 16, 4096])) for i in range(4 if tier == "quick" else 12)]
-            ev = await relayrun.run_batch(dep, spec, vlib.seed() * 1000 + 700 + ci, fid0=2000)
+            ev = await relayrun.run_batch(dep, spec, vlib.seed() * 1000 + 700 + ci, fid0=2000, settle_cap=cap)
             batches.append(ev)
             c.add("halfclose_scripts", len(spec))
             # back-pressure: slow reader, far more data than the buffers hold, the writer closes at once
             if tier != "quick" or ci < 5:
                 spec = [(relayrun.pressure_script(rnd), "ok", KINDS[(i + ci) % 3], 1 << 16) for i in range(2 if tier == "quick" else 4)]
                 spec += [(relayrun.slow_drain_script(rnd, d), "ok", KINDS[(i + ci) % 3], 1 << 16) for i, d in enumerate(["up", "down"])]
-                ev = await relayrun.run_batch(dep, spec, vlib.seed() * 1000 + 800 + ci, fid0=3000, end_cap=25.0)
+                ev = await relayrun.run_batch(dep, spec, vlib.seed() * 1000 + 800 + ci, fid0=3000, end_cap=25.0, settle_cap=cap)
                 batches.append(ev)
                 c.add("pressure_scripts", len(spec))
         finally:
@@ -104,6 +107,7 @@ def run(tier):
     for desc, seg, ev in relayrun.judge(c, "c01", batches, "relay"):
         c.violation(desc, {"flow": seg})
     c.sample({"flow_trace": relayrun.split_flows(batches[0])[0][:14]})
+    c.cov["max_seconds_to_idle_baseline"] = max(relayrun.SETTLE_TIMES or [0])
     self_test(c, batches)
     c.assumptions += [
         "loopback only (no loss, no MTU), IPv4 only as the README says; domain targets resolve through /etc/hosts (localhost)",
